@@ -1,5 +1,6 @@
 import DymVerif.Driver.Common
 import DymVerif.Model.Core
+import DymVerif.Model.CoreGenesis
 namespace DymVerif.Driver.Core
 open DymVerif DymVerif.Core DymVerif.Driver
 
@@ -147,6 +148,10 @@ def step (d : DState) (f : List String) : DState × String :=
     let p := paramsOf f
     let d' : DState := { st := init p, nActors := kvN f "actors", nRollapps := kvN f "rollapps" }
     (d', render d'.st "ok" d'.nActors)
+  | "reimport" :: _ =>
+    -- C18: genesis export followed by import into a fresh chain; everything continues on the imported state
+    let s' := reimport d.st
+    ({ d with st := s' }, render s' "ok" d.nActors)
   | _ =>
     match parseOp d f with
     | none => (d, "bad-op")
